@@ -1,5 +1,5 @@
 """C14 — both story loaders build the same story (sibling agreement of the two decoders + tokenizer escape table)."""
-from analysis.facts import callee, callee_short
+from analysis.facts import callee, callee_short, short
 from analysis.defuse import Tracer
 from analysis.cfg import cfg
 from analysis.guards import resolve_cond
@@ -74,6 +74,65 @@ def run(chk, prog):
     RD = 'C14.version-bounds'
     chk.rule(RD, 'Both load_from_string functions compare the version against INK_VERSION_CURRENT and '
              'INK_VERSION_MINIMUM_COMPATIBLE.')
+
+    RE_ = 'C14.same-depth-budget'
+    chk.rule(RE_, 'The streaming loader refuses a document nested deeper than its own limit; the other loader has '
+             'serde_json\'s limit of 128 levels, and the compiler promises stories up to that depth. Both count one per '
+             'level of the document only if (a) the streaming limit is the constant 128 and (b) every elementary cycle of '
+             'the streaming decoder\'s recursion adds exactly 1 to the depth it hands on (one trip = one array or one '
+             'object of the document): a cycle that adds 2 makes the streaming loader refuse stories the other loader '
+             'plays; a cycle that adds 0 is unbounded (C15).')
+    sfn = {f.p: f for f in module_fns(prog, STREAM_MOD) if not f.parent}
+    cedges = []      # (caller path, callee path, weight, loc)
+    for p_, f_ in sfn.items():
+        for g_ in prog.with_closures(f_):
+            for bb, t in g_.calls():
+                c_ = callee(t)
+                if c_ in sfn:
+                    w_ = 0
+                    for a in t['args']:
+                        at = tr.prov(g_, a)
+                        if any(x.startswith('op:Add') for x in at) and any(x.startswith('arg:') for x in at) \
+                                and g_.local_ty(a['pl']['l']) == 'usize' if a.get('k') in ('copy', 'move') else False:
+                            consts = [x for x in at if x.startswith('const:')]
+                            w_ = sum(int(x[6:]) for x in consts if x[6:].isdigit()) or 1
+                    cedges.append((p_, c_, w_, g_.loc(bb)))
+    cycles = []
+
+    def _dfs(start, node, path, weight, used):
+        for i, (a, b, w_, loc) in enumerate(cedges):
+            if a != node or i in used:
+                continue
+            if b == start:
+                cycles.append((path + [(a, b, w_, loc)], weight + w_))
+            elif b not in [x[0] for x in path] + [x[1] for x in path] and b != node and b > start and len(path) < 6:
+                _dfs(start, b, path + [(a, b, w_, loc)], weight + w_, used | {i})
+    for st_ in sorted(sfn):
+        _dfs(st_, st_, [], 0, frozenset())
+    if chk.anchor(RE_, 'recursion cycles of the streaming decoder', cycles):
+        chk.floor(RE_, 'elementary recursion cycles of the streaming decoder', len(cycles), 2)
+        for i, (path, w_) in enumerate(cycles):
+            name = ' -> '.join(short(a) for a, _, _, _ in path)
+            chk.decide(RE_, chk.key(RE_, 'cycle', name[:120], '#%d' % i), w_ == 1,
+                       'adds exactly 1 to the depth per trip',
+                       'one trip around %s adds %d to the depth: %s' % (
+                           name, w_, 'the streaming loader counts a level of the document more than once and refuses '
+                           'stories the default loader (and the compiler\'s own depth check) accept' if w_ > 1 else
+                           'the recursion is not bounded by the depth limit'), path[-1][3])
+    lim = []
+    for f_ in sfn.values():
+        for bb, t in f_.terms():
+            if t['k'] == 'switch':
+                c_ = resolve_cond(prog, f_, t['d'], tr)
+                if c_ is not None and c_.desc[0] == 'cmp' and c_.desc[1].lstrip('r') in ('Gt', 'Ge', 'Lt', 'Le') \
+                        and isinstance(c_.desc[3], int) and any(a.startswith('arg:') for a in c_.desc[2]) \
+                        and c_.desc[3] >= 16:
+                    lim.append((c_.desc[1], c_.desc[3], f_.loc(bb)))
+    if chk.anchor(RE_, 'depth limit test of the streaming decoder', lim):
+        op_, k_, loc_ = lim[0]
+        accepted = k_ if op_.lstrip('r') in ('Gt', 'Le') else k_ - 1
+        chk.decide(RE_, chk.key(RE_, 'limit'), accepted == 128, 'depth up to 128 accepted, as by serde_json',
+                   'the streaming loader accepts nesting up to %d, serde_json (the other loader) up to 128' % accepted, loc_)
 
     serde = module_fns(prog, SERDE_MOD)
     stream = module_fns(prog, STREAM_MOD)
